@@ -487,6 +487,7 @@ theorem cnt_startTop {s : St} (h : Cnt s) (t : Nat) (op : TopOp) : Cnt (startTop
   case gc => exact cnt_same he rfl rfl (fs := [.gc]) rfl (by lts)
   case poll => exact cnt_same he rfl rfl (fs := [.poll]) rfl (by lts)
   case frameEnd => exact cnt_same he rfl rfl (fs := [.gc, .poll]) rfl (by lts)
+  case clearTrackers => exact cnt_same he rfl rfl (fs := []) rfl lights_nil
   case wSysEvent sys ty pid =>
     refine cnt_applyCmd ?_ _
     exact cnt_same (pe _ _ rfl he) rfl (by simp [St.fresh, St.emit]) (fs := []) (by simp [St.fresh, St.emit]) lights_nil
@@ -749,6 +750,7 @@ theorem good_startTop (s : St) (t : Nat) (op : TopOp) : GoodEvs s (startTop s t 
   case gc => exact he
   case poll => exact he
   case frameEnd => exact he
+  case clearTrackers => exact he
   case wSysEvent sys ty pid =>
     refine good_trans (good_trans he ?_) (good_applyCmd _ _)
     exact good_same ((ct_of_trace (by simp [St.fresh])).trans (ct_emit_quiet _ (Ev.send pid) rfl))
